@@ -17,6 +17,7 @@ func init() {
 	vReg("H_C04_extended", H_C04_extended)
 	vReg("H_C04_modify", H_C04_modify)
 	vReg("H_C04_entry", H_C04_entry)
+	vReg("H_C04_two", H_C04_two)
 	vReg("H_C04_lemma_int", H_C04_lemma_int)
 	vReg("H_C04_lemma_len", H_C04_lemma_len)
 	vReg("H_C14_encode", H_C14_encode)
@@ -95,8 +96,24 @@ func rApp(tag int, parts ...string) string {
 	return rTLV(byte(0x60|tag), c)
 }
 
-// BER: any non-zero content octet is TRUE; asn1-ber writes 0x01.
-func rTrue() string { return string([]byte{0x01, 0x01, 0x01}) }
+// BER: any non-zero content octet is TRUE.  The octet gldap actually wrote is
+// taken over into the reference (vTrueOctet) after asserting it is non-zero, so
+// 0x01 (asn1-ber's NewBoolean) and 0xFF (RFC 4511's canonical TRUE) both pass.
+func rTrue(t byte) string { return string([]byte{0x01, 0x01, t}) }
+
+// vLearnTrue returns the content octet of the criticality BOOLEAN of an encoded control (0x01 if none).
+func vLearnTrue(ctl *ber.Packet) byte {
+	if ctl == nil || len(ctl.Children) < 2 {
+		return 0x01
+	}
+	b := ctl.Children[1]
+	if b.ClassType == ber.ClassUniversal && b.Tag == ber.TagBoolean && b.Data.Len() == 1 {
+		t := b.Data.Bytes()[0]
+		vAssert(t != 0, "criticality TRUE is encoded as a non-zero octet")
+		return t
+	}
+	return 0x01
+}
 
 // rControl is the encoding an LDAP client (go-ldap's DecodeControl) expects.
 func rControl(c ctlSpec) string {
@@ -104,7 +121,7 @@ func rControl(c ctlSpec) string {
 	switch c.kind {
 	case ckGeneric, ckGenericCritValue, ckManageDsaIT:
 		if c.crit {
-			parts = append(parts, rTrue())
+			parts = append(parts, rTrue(c.trueOctet))
 		}
 		if c.hasValue && c.value != "" {
 			parts = append(parts, rOctet(c.value))
@@ -197,8 +214,10 @@ func vRespControls(max int) ([]ctlSpec, []Control) {
 			vAssume(c.oid != "")
 		}
 		vAssume(len(c.oid) < vStrBound && len(c.value) < vStrBound && len(c.cookie) < vStrBound)
+		g := gControl(c)
+		c.trueOctet = vLearnTrue(g.Encode())
 		cs = append(cs, c)
-		gs = append(gs, gControl(c))
+		gs = append(gs, g)
 	}
 	return cs, gs
 }
@@ -453,6 +472,7 @@ func H_C14_encode() {
 		vAssume(c.oid != "")
 	}
 	g := gControl(c)
+	c.trueOctet = vLearnTrue(g.Encode())
 	vAssert(string(g.Encode().Bytes()) == rControl(c), "control encoding == reference")
 	vAssert(g.GetControlType() == c.oid, "control type")
 	vReach("encoded")
@@ -529,4 +549,43 @@ func H_C14_behera_ctor() {
 		}
 	}
 	vReach("ctor")
+}
+
+// Two responses created from the same request are independent: each arrives
+// with the values set on it.
+func H_C04_two() {
+	r, w, sink, id := vRespSetup()
+	c1, c2 := vCode("code1"), vCode("code2")
+	d1, d2 := vS("diag1"), vS("diag2")
+	m1, m2 := vS("dn1"), vS("dn2")
+	var first, second Response
+	var b1, b2 *baseResponse
+	var app1, app2 int
+	mk := func(kind int, code int) (Response, *baseResponse, int) {
+		switch kind {
+		case 0:
+			x := r.NewBindResponse(WithResponseCode(code))
+			return x, x.baseResponse, ApplicationBindResponse
+		case 1:
+			x := r.NewSearchDoneResponse(WithResponseCode(code))
+			return x, x.baseResponse, ApplicationSearchResultDone
+		case 2:
+			x := r.NewExtendedResponse(WithResponseCode(code))
+			return x, x.baseResponse, ApplicationExtendedResponse
+		default:
+			x := r.NewResponse(WithResponseCode(code), WithApplicationCode(ApplicationDelResponse))
+			return x, x.baseResponse, ApplicationDelResponse
+		}
+	}
+	first, b1, app1 = mk(vLen("kind1", 3), c1)
+	second, b2, app2 = mk(vLen("kind2", 3), c2)
+	// values are set in an interleaved order
+	b1.SetDiagnosticMessage(d1)
+	b2.SetDiagnosticMessage(d2)
+	b2.SetMatchedDN(m2)
+	b1.SetMatchedDN(m1)
+	vAssert(w.Write(first) == nil && w.Write(second) == nil, "both writes ok")
+	want := rResult(id, app1, int64(c1), m1, d1, nil) + rResult(id, app2, int64(c2), m2, d2, nil)
+	vAssert(sink() == want, "each of two responses from one request carries its own values")
+	vReach("written")
 }
